@@ -5,7 +5,12 @@
 export GOFLAGS=-mod=mod GOPROXY=off GOSUMDB=off GOTOOLCHAIN=local
 d=$(cd "$1" && pwd); id=$(basename "$d"); c=/tmp/confirm-$$-$id
 rm -rf "$c"; mkdir -p "$c"; (cd /repo && git archive HEAD | tar -x -C "$c")
-dest=tests; [ "$(grep -m1 '^package' "$d/demo_test.go")" = "package secp256k1" ] && dest=.
+dest=tests
+case "$(grep -m1 '^package' "$d/demo_test.go")" in
+  "package secp256k1") dest=. ;;
+  "package field"|"package field_test") dest=internal/field ;;
+  "package scalar"|"package scalar_test") dest=internal/scalar ;;
+esac
 (cd "$c" && patch -p1 -s -f < "$d/patch.diff") || { echo "$id: PATCH FAILED"; rm -rf "$c"; exit 1; }
 t1=$(cd "$c" && go test -vet=off -count=1 ./... >/dev/null 2>&1 && echo pass || echo FAIL)
 cp "$d/demo_test.go" "$c/$dest/zz_demo_test.go"
